@@ -1,9 +1,9 @@
-import Cpl.Gen.Apen
-import Cpl.Model.Measures
+import Cpl.Py
 import Cpl.Ties.C10Lemmas
 
 /-!
-# Helper lemmas for the C19 source tie (`Cpl/Ties/C19.lean`)
+# Helper lemmas for the comprehension ties (`Cpl/Ties/C01.lean`, `C16.lean`, `C19.lean`)
+(independent of the generated files of any one of them)
 `List.mapM` / `List.filterM` in the `Option` monad when no element raises, `pyMax` on a non-empty list of
 non-negative numbers, `Py.getIdx` inside the bounds.
 -/
@@ -34,5 +34,11 @@ theorem filterAuxM_some {α : Type} (f : α → Option Bool) (p : α → Bool) (
 theorem filterM_some {α : Type} (f : α → Option Bool) (p : α → Bool) (l : List α) (h : ∀ a ∈ l, f a = some (p a)) :
     l.filterM f = some (l.filter p) := by
   simp [List.filterM, filterAuxM_some f p l [] h]
+
+theorem getIdx_nat (u : List Int) (k : Nat) (hk : k < u.length) :
+    (Py.getIdx u (k : Int)).toOption = some (u[k]'hk) := by
+  unfold Py.getIdx
+  have h1 : ¬ ((k : Int) < 0) := by omega
+  simp [h1, hk, Except.toOption]
 
 end Cpl.C19tie
